@@ -319,3 +319,22 @@ Theorem zeros_equal :
   (f_ord 8 23 2147483648 0 = OEq /\ f_ord 8 23 0 2147483648 = OEq) /\
   (f_ord 11 52 9223372036854775808 0 = OEq /\ f_ord 11 52 0 9223372036854775808 = OEq).
 Proof. exact (conj f32_zeros_equal f64_zeros_equal). Qed.
+
+(* the magnitude of a bit pattern is its exponent field times 2^mb plus its mantissa field *)
+Lemma mag_fields eb mb x :
+  x mod 2 ^ (eb + mb) = ((x / 2 ^ mb) mod 2 ^ eb) * 2 ^ mb + x mod 2 ^ mb.
+Proof.
+  set (P := 2 ^ mb). set (E := 2 ^ eb).
+  assert (HP : P <> 0) by apply p2nz. assert (HE : E <> 0) by apply p2nz.
+  assert (Hpow : 2 ^ (eb + mb) = E * P) by (unfold E, P; rewrite N.pow_add_r; reflexivity).
+  rewrite Hpow. assert (HEP : E * P <> 0) by lia.
+  pose proof (N.div_mod x (E * P) HEP) as Hx. pose proof (N.mod_lt x (E * P) HEP) as Hm.
+  set (mag := x mod (E * P)) in *. set (k := x / (E * P)) in *.
+  assert (Hq : mag / P < E) by (apply N.div_lt_upper_bound; [exact HP|lia]).
+  assert (He : (x / P) mod E = mag / P).
+  { rewrite Hx. replace (E * P * k + mag) with (mag + (k * E) * P) by lia.
+    rewrite N.div_add by exact HP. rewrite N.mod_add by exact HE. apply N.mod_small. exact Hq. }
+  assert (Hmm : x mod P = mag mod P).
+  { rewrite Hx. replace (E * P * k + mag) with (mag + (k * E) * P) by lia. apply N.mod_add. exact HP. }
+  rewrite He, Hmm. rewrite N.mul_comm. apply N.div_mod. exact HP.
+Qed.
